@@ -123,7 +123,9 @@ var (
 	// StringAlphabet is ordered simplest first.
 	StringAlphabet = []string{"", "a", "ab", "b", "a\x00b", "é", "日本", "<>&", "\"\\", " ", " x y ", "\t\n", longStr, "😀", "null", "1",
 		// the TEXT backslash-u-0-0-3-e (not the character): breaks naive post-processing of escapes
-		"C:\\users\\u003e \\u0026 \\u003c"}
+		"C:\\users\\u003e \\u0026 \\u003c",
+		// the replacement character as a character of its own (valid UTF-8), CR LF and lone CR
+		"a\ufffdb", "line one\r\nline two\rthree\n\r"}
 
 	utc      = time.UTC
 	zPlus    = time.FixedZone("", 5*3600+30*60)
